@@ -232,14 +232,21 @@ CancelOwn(i) ==
                                       [] @ = "rretok" -> "rokc" [] OTHER -> "rerrc"]
     /\ UNCHANGED <<nops, table, pinQ, unpinQ, mu, down, conf, hist>>
 
-\* Operation.Cancel by somebody else: TrackNewOperation (holding opt.mu) cancels the entry it replaces
+\* Operation.Cancel by somebody else: TrackNewOperation (holding opt.mu) cancels the entry it replaces.
+\* (Cancelling a cancelled operation again changes nothing and is always possible.)
 CancelOther(i) ==
     /\ i \in Ids
-    /\ ST => (mu # None /\ mu.c = ops[i].cid /\ table[mu.c] = i)
+    /\ ST => ((mu # None /\ mu.c = ops[i].cid /\ table[mu.c] = i) \/ ops[i].cancelled)
     /\ ops' = [ops EXCEPT ![i].cancelled = TRUE]
     /\ UNCHANGED <<nops, table, pinQ, unpinQ, mu, down, conf, hist>>
 
 Cancel(i) == CancelOwn(i) \/ CancelOther(i)
+
+\* A recorded Cancel does not say who called it.  When the replacing TrackNewOperation and the owner both cancel
+\* an operation, attributing the first of the two events to the owner is harmless: the owner's program counter
+\* moves early, its own (then redundant) Cancel is still to come before its next recorded step.
+CancelRecorded(i) == IF i \in Ids /\ ops[i].pc \in {"fullerr", "seterr", "done", "rretok", "rreterr"}
+                       THEN CancelOwn(i) ELSE CancelOther(i)
 
 PcAfterPhase(pc, ph) ==
     CASE pc = "got" /\ ph = "inprogress" -> "started"
@@ -364,26 +371,69 @@ TNOFinish == mu # None /\ TrackNew(mu.c, mu.typ, mu.ph, "replaced", nops + 1, ta
 
 CleanAsCoded(i) == Clean(i, table[ops[i].cid], IF table[ops[i].cid] = i THEN 0 ELSE table[ops[i].cid])
 
-\* the stateless tracker: enqueue() for pins and unpins, Track() of remote pins, workers
-TrackerNext ==
-    \/ \E c \in CIDS : TNO(c, "pin", "queued") \/ TNO(c, "unpin", "queued") \/ TNO(c, "remote", "inprogress")
-    \/ TNOFinish
-    \/ \E i \in Ids :
-          \/ Cancel(i) \/ SetPhase(i, "inprogress") \/ SetPhase(i, "done") \/ OpSetError(i)
-          \/ Enqueue(i, Len(QOf(ops[i].type)) + 1) \/ QueueFull(i, conf.Q) \/ Dequeue(i) \/ Skip(i)
-          \/ CallStart(i) \/ CallReturn(i, TRUE) \/ CallReturn(i, FALSE) \/ Abandon(i)
-          \/ CleanAsCoded(i)
-    \/ Shutdown
+\* ---- the stateless tracker: enqueue() for pins and unpins, Track() of remote pins, workers.
+\* One named action per hook event and branch, so that `-coverage` lists what was never taken.
+TrackArgs == {<<"pin", "queued">>, <<"unpin", "queued">>, <<"remote", "inprogress">>}
+Entry(c)  == ops[table[c]]
 
-\* any client of the optracker package (its unit tests): every exported method, any argument
-ApiNext ==
-    \/ \E c \in CIDS, typ \in Types, ph \in Phases : TNO(c, typ, ph)
-    \/ TNOFinish
-    \/ \E i \in Ids :
-          \/ Cancel(i) \/ (\E ph \in Phases : SetPhase(i, ph)) \/ OpSetError(i)
-          \/ CleanAsCoded(i) \/ TSetError(i) \/ CleanDone(i)
+DoTrackSame       == \E c \in CIDS, a \in TrackArgs : mu = None /\ table[c] # 0 /\ Entry(c).phase \notin {"done", "error"}
+                                                       /\ TrackNew(c, a[1], a[2], "same", 0, table[c])
+DoTrackSameStale  == \E c \in CIDS, a \in TrackArgs : mu = None /\ table[c] # 0 /\ Entry(c).phase \in {"done", "error"}
+                                                       /\ TrackNew(c, a[1], a[2], "same", 0, table[c])   \* decided on a phase read earlier
+DoTrackNew        == \E c \in CIDS, a \in TrackArgs : mu = None /\ CanCreate /\ TrackNew(c, a[1], a[2], "new", nops + 1, 0)
+DoReplace         == \E c \in CIDS, a \in TrackArgs : mu = None /\ CanCreate /\ table[c] # 0
+                                                       /\ (Entry(c).type # a[1] \/ Entry(c).phase \in {"done", "error"})
+                                                       /\ Replace(c, a[1], a[2], table[c])
+DoReplaceStale    == \E c \in CIDS, a \in TrackArgs : mu = None /\ CanCreate /\ table[c] # 0
+                                                       /\ ~(Entry(c).type # a[1] \/ Entry(c).phase \in {"done", "error"})
+                                                       /\ Replace(c, a[1], a[2], table[c])
+DoTrackReplaced   == TNOFinish
+DoCancelOwn       == \E i \in Ids : CancelOwn(i)
+DoCancelReplaced  == \E i \in Ids : CancelOther(i)
+DoStart           == \E i \in Ids : SetPhase(i, "inprogress")
+DoFinish          == \E i \in Ids : SetPhase(i, "done")
+DoSetError        == \E i \in Ids : OpSetError(i)
+DoEnqueue         == \E i \in Ids : Enqueue(i, Len(QOf(ops[i].type)) + 1)
+DoQueueFull       == \E i \in Ids : QueueFull(i, conf.Q)
+DoDequeue         == \E i \in Ids : ~Cancelled(i) /\ Dequeue(i)
+DoDequeueCancelled == \E i \in Ids : Cancelled(i) /\ Dequeue(i)
+DoSkip            == \E i \in Ids : Skip(i)
+DoCallStart       == \E i \in Ids : CallStart(i)
+DoCallReturnOk    == \E i \in Ids : CallReturn(i, TRUE)
+DoCallReturnErr   == \E i \in Ids : CallReturn(i, FALSE)
+DoAbandon         == \E i \in Ids : Abandon(i)
+DoCleanRemoves    == \E i \in Ids : table[ops[i].cid] = i /\ CleanAsCoded(i)
+DoCleanKeeps      == \E i \in Ids : table[ops[i].cid] # i /\ CleanAsCoded(i)    \* a newer operation is in the table
+DoShutdown        == Shutdown
+
+TrackerNext ==
+    \/ DoTrackSame \/ DoTrackSameStale \/ DoTrackNew \/ DoReplace \/ DoReplaceStale \/ DoTrackReplaced
+    \/ DoCancelOwn \/ DoCancelReplaced \/ DoStart \/ DoFinish \/ DoSetError
+    \/ DoEnqueue \/ DoQueueFull \/ DoDequeue \/ DoDequeueCancelled \/ DoSkip
+    \/ DoCallStart \/ DoCallReturnOk \/ DoCallReturnErr \/ DoAbandon
+    \/ DoCleanRemoves \/ DoCleanKeeps \/ DoShutdown
+
+\* ---- any client of the optracker package (its unit tests): every exported method, any argument
+ApiTrack      == \E c \in CIDS, typ \in Types, ph \in Phases : TNO(c, typ, ph)
+ApiTrackDone  == TNOFinish
+ApiCancel     == \E i \in Ids : Cancel(i)
+ApiSetPhase   == \E i \in Ids, ph \in Phases : SetPhase(i, ph)
+ApiOpSetError == \E i \in Ids : OpSetError(i)
+ApiClean      == \E i \in Ids : CleanAsCoded(i)
+ApiSetError   == \E i \in Ids : TSetError(i)
+ApiCleanDone  == \E i \in Ids : CleanDone(i)
+
+ApiNext == ApiTrack \/ ApiTrackDone \/ ApiCancel \/ ApiSetPhase \/ ApiOpSetError \/ ApiClean \/ ApiSetError \/ ApiCleanDone
 
 Next == IF T THEN TrackerNext ELSE ApiNext
+
+\* control (Strict = FALSE): a client whose recorded outcomes are arbitrary - the property predicates must be refutable
+ControlNext ==
+    \/ \E c \in CIDS, typ \in {"pin", "unpin"}, out \in {"same", "new", "replaced"} :
+          CanCreate /\ TrackNew(c, typ, "queued", out, IF out = "same" THEN 0 ELSE nops + 1, table[c])
+    \/ \E i \in Ids :
+          \/ Cancel(i) \/ (\E ph \in Phases : SetPhase(i, ph)) \/ OpSetError(i)
+          \/ \E post \in {0, table[ops[i].cid]} : Clean(i, table[ops[i].cid], post)
 
 Spec == Init /\ [][Next]_vars
 
@@ -435,6 +485,10 @@ PhaseForward == T => hist.back = {}
 
 \* an instruction that found its queue full ends as a cancelled operation in phase error
 FullQueueIsError == T => \A i \in hist.fullq : ops[i].pc = "end" => (ops[i].phase = "error" /\ ops[i].cancelled)
+\* ... the error is recorded before the operation is cancelled: while it is the table entry (and nobody is
+\* replacing it) a cancelled operation that found its queue full shows phase error (the instruction is not dropped silently)
+FullQueueShowsError == T => \A i \in hist.fullq :
+    (ops[i].cancelled /\ table[ops[i].cid] = i /\ mu = None) => ops[i].phase = "error"
 
 \* queues hold what was enqueued and not yet received, within capacity (+ receives not yet logged)
 QueueBound == ST => /\ Len(pinQ) <= conf.Q + (IF Lag THEN conf.K ELSE 0)
